@@ -357,6 +357,10 @@ type Info struct {
 func Inspect(node datamodel.Node) (Info, error) {
 	var res Info
 
+	if node.Kind() != datamodel.Kind_List || node.Length() != 2 {
+		return Info{}, fmt.Errorf("expected the envelope to be a list of two and only two elements")
+	}
+
 	signatureNode, err := node.LookupByIndex(0)
 	if err != nil {
 		return Info{}, err
